@@ -948,6 +948,9 @@ def run_scenario(sc, xvc_bin, template, gitmodel, fixed=1):
         before = observe(repo)
         rc, out, err = repo.xvc(xvc_bin, xvc_args(sc["command"], sc["setting"]))
         res["xvc"] = {"rc": rc, "out": out[-400:], "err": err[-600:]}
+        if rc == 124:                      # xvc did not finish in time: nothing can be judged (retried by the caller)
+            res["timeout"] = True
+            return res
         failed = rc != 0 or "[ERROR]" in err or "panicked" in err
         after = observe(repo)
         st1 = snapshot(repo, ids, codec, "git")
@@ -1214,7 +1217,11 @@ def run(chk, replay=None):
         finally:
             if template:
                 template[0].cleanup(); template[1].cleanup()
-    chk.cov["xvc_scenarios"] = {"runs": len(results), "wall_s": round(time.time() - t0, 1),
+    ntimeout = sum(1 for r in results if r.get("timeout"))
+    if results and ntimeout * 10 > len(results):
+        chk.fail("correspondence", "%d of %d xvc runs did not finish within 120 s (twice each): the scenarios cannot be judged" % (ntimeout, len(results)),
+                 {"theorem_or_correspondence": "dispatch vs xvc + git-shim"}, name="timeouts", has_input=False)
+    chk.cov["xvc_scenarios"] = {"runs": len(results), "wall_s": round(time.time() - t0, 1), "timeouts_not_judged": ntimeout,
                                 "oracle_failures": sum(1 for r in results if r["oracle"]),
                                 "in_known_class": sum(1 for r in results if r["known"]),
                                 "correspondence_failures": sum(1 for r in results if r["corr"]),
@@ -1240,7 +1247,10 @@ def _safe(f, c, *a, retry=True):
 
 def _safe_sc(sc, xvc_bin, template, gitmodel, retry=True):
     try:
-        return run_scenario(sc, xvc_bin, template, gitmodel)
+        r = run_scenario(sc, xvc_bin, template, gitmodel)
+        if r.get("timeout") and retry:
+            return _safe_sc(sc, xvc_bin, template, gitmodel, retry=False)
+        return r
     except Exception as e:
         if retry:
             return _safe_sc(sc, xvc_bin, template, gitmodel, retry=False)
